@@ -3,18 +3,31 @@ import B6.Model.Tags
 import B6.Spec.OrderedMap
 /-!
 Driver for C39.  State = the tag list as last reported by the implementation (the model is re-synchronised
-after every line, so one disagreement does not cascade).
+after every line, so one disagreement does not cascade) + a second list held aside (`snap`), used to check
+that `Clone`/`MergeFrom` leave no aliasing between two lists.
+
+Every API op is parsed into a `B6.Spec.OrderedMap.Op` and answered by `B6.Model.Tags.step` (the model the
+theorems of `B6.Props.C39` are about) and by `B6.Spec.OrderedMap.step` (the property predicate).  The
+predicate is applied exactly on the property's domain: current list key-distinct and `Op.ok` (the hypotheses
+of `ops_refine`); outside it (lists with repeated keys — generated on purpose to tie the Go-slice model of
+`RemoveTag`) only the model answer is compared.
 
 ops (keys/values are `[A-Za-z0-9_]+` words; a tag is `k=v`):
   `init [k=v …]`             answer `[k=v …]`
   `get k`                    answer `some v` | `none`
-  `set k=v`                  answer `<modified:bool> <old|-> [list]`
-  `add k=v`                  answer `[list]`                      (AddTag; the generator only adds fresh keys)
+  `set k=v`                  answer `<modified:bool> <old|-> [list]` | `panic`
+  `add k=v`                  answer `[list]`                      (AddTag)
   `rm k`                     answer `[list]` | `panic`
   `rms [k …]`                answer `[list]` | `panic`
-  `merge [k=v …]`            answer `[list]`
+  `merge [k=v …]`            answer `[list]`      t.MergeFrom(arg); other := arg (the very slice passed)
+  `clone`                    answer `[list]`                      (t = t.Clone())
+  `snap`                     answer `[list]`      other := t.Clone(); answer = other
+  `mergeo`                   answer `[list]`      t.MergeFrom(other); answer = t        (needs a `snap` before)
+  `swap`                     answer `[list]`      t, other := other, t; answer = new t
+  `chk`                      answer `[list]`      answer = other — must be exactly what it was when set aside
 -/
 open B6.Driver B6.Model.Tags
+open B6.Spec.OrderedMap (Op Out)
 namespace B6.Driver.C39
 
 def parseTag (s : String) : Option Tag :=
@@ -33,63 +46,75 @@ def judge (impl model spec clause : String) : Verdict :=
   if impl == spec then (if impl == model then .ok else .diff model)
   else .propfail clause
 
-def optTags : Option Tags → String
-  | some t => renderTags t
-  | none => "panic"
+/-- canonical answer text of one call -/
+def renderAns : Tags × Out → String
+  | (t, .unit) => renderTags t
+  | (_, .found (some v)) => "some " ++ v
+  | (_, .found none) => "none"
+  | (t, .modified true old) => s!"true {old} {renderTags t}"
+  | (t, .modified false _) => s!"false - {renderTags t}"
 
-def step (st : Tags) (op impl : String) : Tags × Verdict :=
+def parseOp (op : String) : Option (Op × String) :=
+  match words op with
+  | ["get", k] => some (.get k, "get")
+  | ["set", kv] => (parseTag kv).map (fun t => (.set t, "set"))
+  | ["add", kv] => (parseTag kv).map (fun t => (.add t, "add"))
+  | ["rm", k] => some (.rm k, "remove")
+  | "rms" :: _ => (parseBracket (sdrop op 4)).map (fun ks => (.rms ks, "removeAll"))
+  | "merge" :: _ => (parseTags (sdrop op 6)).map (fun o => (.merge o, "merge"))
+  | ["clone"] => some (.clone, "clone")
+  | _ => none
+
+structure St where
+  cur : Tags := []
+  other : Option Tags := none
+
+def step (st : St) (op impl : String) : St × Verdict :=
   -- resynchronise on the list the implementation reports (last bracket group of its answer)
   let resync : Tags :=
     match impl.splitOn "[" with
-    | [] => st
+    | [] => st.cur
     | parts => match parseTags ("[" ++ parts.getLast!) with
       | some t => t
-      | none => st
-  let distinct := decide ((st.map (·.1)).Nodup)
+      | none => st.cur
   match words op with
   | "init" :: _ =>
     match parseTags (sdrop op 5) with
-    | some t => (t, if impl == renderTags t then .ok else .diff (renderTags t))
+    | some t => ({ cur := t, other := none }, if impl == renderTags t then .ok else .diff (renderTags t))
     | none => (st, .bad)
-  | ["get", k] =>
-    let m := match get st k with | some v => "some " ++ v | none => "none"
-    let s := match B6.Spec.OrderedMap.lookup st k with | some v => "some " ++ v | none => "none"
-    (st, judge impl m s "get")
-  | ["set", kv] =>
-    match parseTag kv with
+  | ["snap"] =>
+    let m := renderTags (clone st.cur)
+    ({ st with other := some (clone st.cur) }, judge impl m m "clone")
+  | ["swap"] =>
+    match st.other with
     | none => (st, .bad)
-    | some tag =>
-      let (t', modified, old) := modifyOrAddTag st tag
-      let m := s!"{modified} {if modified then old else "-"} {renderTags t'}"
-      let specOld := B6.Spec.OrderedMap.lookup st tag.1
-      let s := s!"{specOld.isSome} {specOld.getD "-"} {renderTags (B6.Spec.OrderedMap.set st tag)}"
-      (resync, if distinct then judge impl m s "set" else (if impl == m then .ok else .diff m))
-  | ["add", kv] =>
-    match parseTag kv with
+    | some o => ({ cur := o, other := some st.cur }, judge impl (renderTags o) (renderTags o) "isolation")
+  | ["chk"] =>
+    match st.other with
     | none => (st, .bad)
-    | some tag =>
-      let m := renderTags (addTag st tag)
-      (resync, judge impl m m "add")
-  | ["rm", k] =>
-    let m := optTags (removeTag st k)
-    let s := renderTags (B6.Spec.OrderedMap.remove st k)
-    (resync, if distinct then judge impl m s "remove" else (if impl == m then .ok else .diff m))
-  | "rms" :: _ =>
-    match parseBracket (sdrop op 4) with
-    | none => (st, .bad)
-    | some ks =>
-      let m := optTags (removeTags st ks)
-      let s := renderTags (B6.Spec.OrderedMap.removeAll st ks)
-      (resync, if distinct then judge impl m s "removeAll" else (if impl == m then .ok else .diff m))
-  | "merge" :: _ =>
-    match parseTags (sdrop op 6) with
+    | some o => (st, judge impl (renderTags o) (renderTags o) "isolation")
+  | ["mergeo"] =>
+    match st.other with
     | none => (st, .bad)
     | some o =>
-      let m := renderTags (mergeFrom st o)
-      (resync, judge impl m (renderTags o) "merge")
-  | _ => (st, .bad)
+      let m := renderTags (mergeFrom st.cur o)
+      ({ st with cur := resync }, judge impl m (renderTags o) "merge")
+  | _ =>
+    match parseOp op with
+    | none => (st, .bad)
+    | some (o, clause) =>
+      let m := match B6.Model.Tags.step st.cur o with
+        | some r => renderAns r
+        | none => "panic"
+      let inDomain := decide (B6.Spec.OrderedMap.Distinct st.cur) && o.ok st.cur
+      let v :=
+        if inDomain then judge impl m (renderAns (B6.Spec.OrderedMap.step st.cur o)) clause
+        else if impl == m then .ok else .diff m
+      -- the argument of `merge` becomes the list held aside (later `chk`s: it must stay what was passed)
+      let other := match o with | .merge arg => some arg | _ => st.other
+      ({ cur := resync, other := other }, v)
 
-def family : Family := { σ := Tags, init := [], step := step }
+def family : Family := { σ := St, init := {}, step := step }
 
 end B6.Driver.C39
 
